@@ -4273,13 +4273,15 @@ where
         } else if num_vertices == D + 1 {
             // Build initial simplex from all D+1 vertices
             let all_vertices: Vec<_> = self.tds.vertices().map(|(_, v)| *v).collect();
-            let new_tds = Self::build_initial_simplex(&all_vertices).map_err(|e| {
+            let mut new_tds = Self::build_initial_simplex(&all_vertices).map_err(|e| {
                 InsertionError::CavityFilling {
                     message: format!("Failed to build initial simplex: {e}"),
                 }
             })?;
 
-            // Replace empty TDS with simplex TDS (preserve kernel)
+            // Replace empty TDS with simplex TDS (preserve kernel). Keep counting generations
+            // where the old structure stopped so caches keyed on it can never look current.
+            new_tds.inherit_generation_from(&self.tds);
             self.tds = new_tds;
 
             // Re-map vertex key to the rebuilt TDS
